@@ -1,2 +1,164 @@
-import Moclo.Model.Entity
-/-! placeholder for C17 (theorems follow) -/
+import Moclo.Proofs.Assembly
+/-!
+# C17 — validation is total and failures are always reported as MoClo errors
+
+The model is total by construction (every function is a total Lean function), so "returns True or False"
+is carried by the correspondence check on the malformed stream; the theorems below carry the error
+*taxonomy*: what `is_valid()` is equivalent to, what the accessors raise on a rejected record, and which
+errors an assembly can end with.
+**Partial**: "never AttributeError / KeyError / IndexError / TypeError" is a statement about the Python
+runtime that no total model can exhibit: decided by the oracle on the implementation.
+-/
+namespace Moclo.C17
+open Moclo
+
+/-- `is_valid()` answers `False` exactly when the match fails with one of the two documented
+invalid-sequence errors -/
+theorem isValid_false_iff (c : ClassSpec) (w : Word) :
+    c.isValid w = false ↔ c.matchSeq w = .error .invalid ∨ c.matchSeq w = .error .illegal := by
+  unfold ClassSpec.isValid ClassSpec.matchSeq
+  cases search c.pat w true with
+  | none => simp
+  | some m =>
+    simp only []
+    by_cases hc : validCuts c.geom (m.group w 0) > 2
+    · simp [hc]
+    · simp [hc]
+
+theorem isValid_true_iff (c : ClassSpec) (w : Word) : c.isValid w = true ↔ ∃ m, c.matchSeq w = .ok m := by
+  unfold ClassSpec.isValid
+  cases c.matchSeq w with
+  | ok m => simp
+  | error e => simp
+
+/-- on a record that is not valid, overhangs, target and placeholder all raise that same
+invalid-sequence error -/
+theorem accessors_raise_invalid (c : ClassSpec) (r : Rec) (h : c.isValid r.seq = false) :
+    ∃ e, (e = .invalid ∨ e = .illegal) ∧ c.overhangStart r.seq = .error e ∧ c.overhangEnd r.seq = .error e ∧
+      c.target r = .error e ∧ c.placeholder r.seq = .error e := by
+  rcases (isValid_false_iff c r.seq).mp h with h' | h'
+  · exact ⟨.invalid, Or.inl rfl, by simp [ClassSpec.overhangStart, h', Except.map],
+      by simp [ClassSpec.overhangEnd, h', Except.map], by simp [ClassSpec.target, h', Except.map],
+      by simp [ClassSpec.placeholder, h', Except.map]⟩
+  · exact ⟨.illegal, Or.inr rfl, by simp [ClassSpec.overhangStart, h', Except.map],
+      by simp [ClassSpec.overhangEnd, h', Except.map], by simp [ClassSpec.target, h', Except.map],
+      by simp [ClassSpec.placeholder, h', Except.map]⟩
+
+theorem matchSeq_error (c : ClassSpec) (w : Word) (e : Err) (h : c.matchSeq w = .error e) :
+    e = .invalid ∨ e = .illegal := by
+  unfold ClassSpec.matchSeq at h
+  cases hs : search c.pat w true with
+  | none => rw [hs] at h; simp only [Except.error.injEq] at h; exact Or.inl h.symm
+  | some m =>
+    rw [hs] at h; simp only [] at h
+    split at h
+    · simp only [Except.error.injEq] at h; exact Or.inr h.symm
+    · cases h
+
+theorem gmod_error (e : Ent) (err : Err) (h : e.gmod = .error err) : err = .invalid ∨ err = .illegal := by
+  unfold Ent.gmod at h
+  cases hm : e.spec.matchSeq e.rcd.seq with
+  | error x =>
+    rw [hm] at h
+    simp [bind, Except.bind] at h
+    subst h; exact matchSeq_error _ _ _ hm
+  | ok m => rw [hm] at h; simp [bind, Except.bind, pure, Except.pure] at h
+
+theorem evalPrefix_error (mods : List Ent) (err : Err) (h : (evalPrefix mods).2 = some err) :
+    err = .invalid ∨ err = .illegal := by
+  induction mods with
+  | nil => simp [evalPrefix] at h
+  | cons e es ih =>
+    simp only [evalPrefix] at h
+    cases he : e.gmod with
+    | error x => rw [he] at h; simp at h; subst h; exact gmod_error e _ he
+    | ok g => rw [he] at h; exact ih h
+
+theorem target_error (c : ClassSpec) (r : Rec) (e : Err) (h : c.target r = .error e) :
+    e = .invalid ∨ e = .illegal := by
+  unfold ClassSpec.target at h
+  cases hm : c.matchSeq r.seq with
+  | error x => rw [hm] at h; simp [Except.map] at h; subst h; exact matchSeq_error _ _ _ hm
+  | ok m => rw [hm] at h; simp [Except.map] at h
+
+theorem extractChain_error (ents : List Ent) (gs : List (GMod Word)) (acc : Rec) (e : Err)
+    (h : extractChain ents gs acc = .error e) :
+    e = .invalid ∨ e = .illegal ∨ e = .injected ∨ e = .internal := by
+  induction gs generalizing acc with
+  | nil => simp [extractChain] at h
+  | cons g gs ih =>
+    simp only [extractChain] at h
+    split at h
+    · simp only [Except.error.injEq] at h; exact Or.inr (Or.inr (Or.inr h.symm))
+    · split at h
+      · simp only [Except.error.injEq] at h; exact Or.inr (Or.inr (Or.inl h.symm))
+      · split at h
+        · rename_i err ht
+          simp only [Except.error.injEq] at h; subst h
+          rcases target_error _ _ _ ht with h' | h'
+          · exact Or.inl h'
+          · exact Or.inr (Or.inl h')
+        · exact ih _ h
+
+/-- **an assembly ends with a product or with a documented error**: the only possible failures are the
+invalid-sequence errors, `DuplicateModules`, `MissingModule` — plus, and only when the harness injected one,
+the injected fault, and `internal` only for citation qualifiers that do not index the reference list -/
+theorem assemble_errors_documented (v : Ent) (mods : List Ent) (pid pname : Nat) (e : Err)
+    (h : (assemble v mods pid pname).1 = .error e) :
+    e = .invalid ∨ e = .illegal ∨ e = .duplicate ∨ (∃ o, e = .missing o) ∨ e = .injected ∨ e = .internal := by
+  unfold assemble at h
+  simp only [] at h
+  split at h
+  · rename_i err hv
+    simp only [Except.error.injEq] at h; subst h
+    rcases gmod_error v _ hv with h' | h'
+    · exact Or.inl h'
+    · exact Or.inr (Or.inl h')
+  · split at h
+    · simp only [Except.error.injEq] at h; exact Or.inl h.symm
+    · split at h
+      · simp only [Except.error.injEq] at h; exact Or.inr (Or.inr (Or.inl h.symm))
+      · split at h
+        · rename_i err herr
+          simp only [Except.error.injEq] at h; subst h
+          rcases evalPrefix_error mods _ herr with h' | h'
+          · exact Or.inl h'
+          · exact Or.inr (Or.inl h')
+        · split at h
+          · simp only [Except.error.injEq] at h; exact Or.inr (Or.inr (Or.inl h.symm))
+          · split at h
+            · rename_i dms dv _ _
+              simp only [] at h
+              unfold assembleCore at h
+              simp only [] at h
+              split at h
+              · rename_i err hex
+                simp only [Except.error.injEq] at h; subst h
+                rcases extractChain_error _ _ _ _ hex with h' | h' | h' | h'
+                · exact Or.inl h'
+                · exact Or.inr (Or.inl h')
+                · exact Or.inr (Or.inr (Or.inr (Or.inr (Or.inl h'))))
+                · exact Or.inr (Or.inr (Or.inr (Or.inr (Or.inr h'))))
+              · split at h
+                · rename_i o _
+                  simp only [Except.error.injEq] at h
+                  exact Or.inr (Or.inr (Or.inr (Or.inl ⟨o, h.symm⟩)))
+                · split at h
+                  · simp only [Except.error.injEq] at h
+                    exact Or.inr (Or.inr (Or.inr (Or.inr (Or.inl h.symm))))
+                  · split at h
+                    · rename_i err ht
+                      simp only [Except.error.injEq] at h; subst h
+                      rcases target_error _ _ _ ht with h' | h'
+                      · exact Or.inl h'
+                      · exact Or.inr (Or.inl h')
+                    · cases h
+            · simp only [Except.error.injEq] at h
+              exact Or.inr (Or.inr (Or.inr (Or.inr (Or.inr h.symm))))
+
+/-! non-vacuity: a record shorter than the structure is rejected with `invalid`; one with a third cut with
+`illegal` -/
+example : ({ kind := .module, pat := moduleStructure ⟨[.G, .A], 1, 2⟩, geom := ⟨[.G, .A], 1, 2⟩ } : ClassSpec).matchSeq
+    ([.G, .A, .C].map (fun n => ⟨n, false⟩)) = .error .invalid := by decide
+
+end Moclo.C17
